@@ -161,3 +161,52 @@ theorem checkX_select_ok (cfg : CheckCfg) (rows : List Inst) (idx : List Nat) (X
           simp [h1, h2, h3]
 
 end SkVerif.C16.Lem
+
+namespace SkVerif.C16.Lem
+open SkVerif SkVerif.C16
+
+/-! ### random tie-breaking -/
+
+theorem getD_mod_of_length_one (t : List Nat) (d : Nat) (h : t.length = 1) : t.getD (d % t.length) 0 = t.headD 0 := by
+  match t, h with
+  | [a], _ => simp [Nat.mod_one]
+
+theorem predictTie_aux (draws : Nat → Nat) (P : List (List Rat)) (k : Nat)
+    (h : ∀ p ∈ P, (argmaxSet p).length = 1) :
+    (P.zipIdx k).map (fun (p, i) => let t := argmaxSet p; t.getD (draws i % t.length) 0)
+      = P.map (fun p => (argmaxSet p).headD 0) := by
+  induction P generalizing k with
+  | nil => rfl
+  | cons p t ih =>
+    simp only [List.zipIdx_cons, List.map_cons]
+    rw [ih (k + 1) (fun q hq => h q (List.mem_cons_of_mem _ hq))]
+    congr 1
+    exact getD_mod_of_length_one _ _ (h p (List.mem_cons_self ..))
+
+end SkVerif.C16.Lem
+
+namespace SkVerif.C16.Lem
+open SkVerif SkVerif.C16
+
+/-! ### label join -/
+
+theorem freshFrom_labels_map {α β : Type} (f : α → β) (k : Nat) (X : List α) :
+    (freshFrom k (X.map f)).map (·.1) = (freshFrom k X).map (·.1) := by
+  induction X generalizing k with
+  | nil => rfl
+  | cons x t ih => simp [freshFrom, ih]
+
+theorem zip_freshFrom {α β : Type} (f : α → β) (k : Nat) (X : List α) :
+    ((freshFrom k X).map (·.1)).zip (X.map f) = freshFrom k (X.map f) := by
+  induction X generalizing k with
+  | nil => rfl
+  | cons x t ih => simp [freshFrom, ih]
+
+theorem zipWith_freshFrom {α β : Type} (fa fb : α → β) (k : Nat) (X : List α) :
+    List.zipWith (fun a b => (some a.2, some b.2)) (freshFrom k (X.map fa)) (freshFrom k (X.map fb))
+      = X.map (fun x => (some (fa x), some (fb x))) := by
+  induction X generalizing k with
+  | nil => rfl
+  | cons x t ih => simp [freshFrom, ih]
+
+end SkVerif.C16.Lem
